@@ -169,12 +169,18 @@ Definition limit_denominator (n0 d0 maxd : Z) : option (Z * Z) :=
   let d := d0 / g in
   if d <=? maxd then Some (n, d)
   else
-    match limit_loop (Z.to_nat (maxd + 3)) maxd 0 1 1 0 n d with
+    match limit_loop (Z.to_nat (2 * maxd + 4)) maxd 0 1 1 0 n d with
     | None => None
     | Some (p0, q0, p1, q1, _, dd) =>
       let k := (maxd - q0) / q1 in
       if 2 * dd * (q0 + k * q1) <=? d then Some (p1, q1) else Some (p0 + k * p1, q0 + k * q1)
     end.
+
+(* round(denominator * (value - whole)) of _float_to_fraction: the product is a binary64 product,
+   round() is half-to-even on it *)
+Definition fraction_numerator (acc vn vd : Z) : Z :=
+  let fN := vn - (vn / vd) * vd in
+  if fN <=? 0 then 0 else let '(pn, pd) := rat_of_b64 (b64_of_rat (acc * fN) vd) in rne_div pn pd.
 
 (* _float_to_fraction / _float_to_n_digit_fraction on the magnitude *)
 Definition fraction_abs (is_int : bool) (mant ex acc : Z) : result (list N) :=
@@ -187,9 +193,7 @@ Definition fraction_abs (is_int : bool) (mant ex acc : Z) : result (list N) :=
     | Some (n, dd) => Ok (frac_parts whole (n - whole * dd) dd)
     end
   else
-    let fN := vn - whole * vd in
-    let num := if fN <=? 0 then 0 else let '(pn, pd) := rat_of_b64 (b64_of_rat (acc * fN) vd) in rne_div pn pd in
-    Ok (frac_parts whole num acc).
+    Ok (frac_parts whole (fraction_numerator acc vn vd) acc).
 
 (* _format_fraction(value, number_format) *)
 Definition format_fraction (is_int : bool) (d : dec) (acc : Z) : result (list N) :=
@@ -201,13 +205,8 @@ Definition format_fraction (is_int : bool) (d : dec) (acc : Z) : result (list N)
 Definition sci_str (vn vd p : Z) : list N :=
   if vn <=? 0 then 48%N :: (if 0 <? p then c_dot :: zeros p else []) ++ c_E :: exp_str 0
   else
-    let X0 := ndig vn - ndig vd in
-    let ge (X : Z) := if 0 <=? X then vd * 10 ^ X <=? vn else vd <=? vn * 10 ^ (- X) in
-    let X := if ge X0 then X0 else X0 - 1 in
-    let s := X - p in
-    let q := if 0 <=? s then rne_div vn (vd * 10 ^ s) else rne_div (vn * 10 ^ (- s)) vd in
-    let '(q, X) := if q =? 10 ^ (p + 1) then (10 ^ p, X + 1) else (q, X) in
-    zstr (q / 10 ^ p) ++ (if 0 <? p then c_dot :: digs (Z.to_nat p) q else []) ++ c_E :: exp_str X.
+    let '(q, e) := round_float 10 (p + 1) vn vd in
+    zstr (q / 10 ^ p) ++ (if 0 <? p then c_dot :: digs (Z.to_nat p) q else []) ++ c_E :: exp_str (e + p).
 
 (* _format_scientific(value, number_format): sigfig to 15 digits, through a float, then '.pE' *)
 Definition format_scientific (d : dec) (p : Z) : list N :=
@@ -316,3 +315,11 @@ Definition plain_digits (M p : Z) : list N :=
 
 (* a text without digits, decimal points or sign markers: pure decoration *)
 Definition decoration (s : list N) : bool := forallb (fun c => negb (is_dd c) && negb (is_sg c)) s.
+
+(* q * b^e is a nearest P-digit number to vn/vd: | q * b^e - vn/vd | <= b^e / 2 *)
+Definition nearest_scaled (b vn vd q e : Z) : Prop :=
+  2 * Z.abs (q * scB b vd e - scA b vn e) <= scB b vd e.
+
+(* automatic places: sign shown for an integer-valued number *)
+Definition shown_negative_auto (d : dec) (ns M : Z) : bool :=
+  if is_neg d then (if 2 <=? ns then true else if 1 <=? ns then false else 0 <? M) else false.
